@@ -9,7 +9,9 @@ package arith
 //@   requires N != nil
 //@   modifies nothing
 //@   ensures result ==> each(ints, x, x != nil)
+//@   ensures[C15] result == each(ints, x, x != nil && natval(x) < natval(N) && coprime(natval(x), natval(N)))
 //@   loop 1: invariant each(ints[:rangeindex+1], x, x != nil)
+//@   loop 1: invariant[C15] each(ints[:rangeindex+1], x, x != nil && natval(x) < natval(N) && coprime(natval(x), natval(N)))
 
 //@ func IsValidBigModN
 //@   nopanic[C05]
